@@ -39,6 +39,7 @@ def ValidCertificate (n : Node) (nvm : NVMsg) : Prop :=
   ∧ (nvm.header.votes.map (·.sender.id)).Nodup
   ∧ nvm.pp.header.view = nvm.header.view
   ∧ nvm.pp.header.height = nvm.header.height
+  ∧ nvm.pp.header.inst = n.cfg.inst
   ∧ (∀ lv, latestVote nvm.header.votes = some lv →
         commitmentOk nvm.block (proofHash lv.header.proof) = true
         ∧ nvm.pp.header.hash = proofHash lv.header.proof)
@@ -65,16 +66,18 @@ theorem newview_ignored_unless_valid_certificate (w : Term.W) (nvm : NVMsg)
         · by_cases h5 : validateVotes w.n nvm.header.height nvm.header.view nvm.header.votes = true
           · by_cases h6 : nvm.pp.header.view = nvm.header.view
             · by_cases h7 : nvm.pp.header.height = nvm.header.height
-              · obtain ⟨q, vv, nd⟩ := (validateVotes_iff _ _ _ _).mp h5
-                -- the remaining way to be invalid: the lock condition
-                by_cases hlock : lockOk w.n nvm = true
-                · exfalso; apply h
-                  refine ⟨h1, h2, h3, h4, q, vv, nd, h6, h7, ?_⟩
-                  intro lv hlv
-                  unfold lockOk at hlock; rw [hlv] at hlock
-                  simp only [Bool.and_eq_true, beq_iff_eq] at hlock
-                  exact ⟨hlock.1.2, hlock.2⟩
-                · simp [h1, h2, h3, h4, h5, h6, h7, hlock]
+              · by_cases h8 : nvm.pp.header.inst = w.n.cfg.inst
+                · obtain ⟨q, vv, nd⟩ := (validateVotes_iff _ _ _ _).mp h5
+                  -- the remaining way to be invalid: the lock condition
+                  by_cases hlock : lockOk w.n nvm = true
+                  · exfalso; apply h
+                    refine ⟨h1, h2, h3, h4, q, vv, nd, h6, h7, h8, ?_⟩
+                    intro lv hlv
+                    unfold lockOk at hlock; rw [hlv] at hlock
+                    simp only [Bool.and_eq_true, beq_iff_eq] at hlock
+                    exact ⟨hlock.1.2, hlock.2⟩
+                  · simp [h1, h2, h3, h4, h5, h6, h7, h8, hlock]
+                · simp [h1, h2, h3, h4, h5, h6, h7, h8]
               · simp [h1, h2, h3, h4, h5, h6, h7]
             · simp [h1, h2, h3, h4, h5, h6]
           · simp [h1, h2, h3, h4, h5]
@@ -150,7 +153,7 @@ theorem accepted_newview_reproposes_lock (w : Term.W) (nvm : NVMsg) (hne : handl
     by_cases c : ValidCertificate w.n nvm
     · exact c
     · exact absurd (newview_ignored_unless_valid_certificate w nvm c) hne
-  obtain ⟨_, _, _, _, _, vv, _, _, _, lock⟩ := hv
+  obtain ⟨_, _, _, _, _, vv, _, _, _, _, lock⟩ := hv
   obtain ⟨hm, _, hmax⟩ := (latestVote_is_highest nvm.header.votes).2 lv hlv
   obtain ⟨hc, hh⟩ := lock lv hlv
   have hvalid := (C08.isViewChangeValid_imp _ _ (vv lv hm).2.2).2.2.2.2.2
